@@ -178,6 +178,20 @@ def r6_3(ctx: Ctx, rule="R6.3"):
     if order_if is None or wb_if is None:
         ctx.ob(rule, f, "role predicates", True, "ordering / write-back branches not recognised; not decided", undecided=True)
         return
+    # a predicate kept in a local that is bound once (`smaller = len(a) < len(b)` ... `if smaller:`) is read as its value
+    from ..pat import single_defs
+    import copy as _copy
+    sd_ = single_defs(f.node)
+
+    def _resolved(ifn):
+        t = ifn.test
+        inner = t.operand if isinstance(t, ast.UnaryOp) and isinstance(t.op, ast.Not) else t
+        if isinstance(inner, ast.Name) and inner.id in sd_:
+            c = _copy.copy(ifn)
+            c.test = sd_[inner.id] if inner is t else ast.UnaryOp(ast.Not(), sd_[inner.id])
+            return c
+        return ifn
+    order_if, wb_if = _resolved(order_if), _resolved(wb_if)
     a, o_true, o_false = branches(order_if)
     b, w_true, w_false = branches(wb_if)
     ctx.ob(rule, f, "ordering `%s` vs write-back `%s`" % (norm(order_if.test), norm(wb_if.test)), a == b,
